@@ -334,4 +334,47 @@ mod tests {
             }
         }
     }
+    /// Behaviours the C04 / C19 checks rely on: an object listed twice in one revision leaves
+    /// an orphaned earlier copy and the table references the later one; a freed object can be
+    /// re-added with the generation recorded in its free entry; an object stream in an
+    /// appended revision supersedes a plain definition and vice versa.
+    #[test]
+    fn orphan_copy_readd_and_objstm_supersession() {
+        let objs = simple_doc_objects(1, &|_| b"BT ET".to_vec());
+        let mut r = Revision::new(XrefForm::Stream);
+        r.add(10, Obj::Int(100)); // orphaned copy
+        for (n, o) in objs {
+            r.add(n, o);
+        }
+        r.add(10, Obj::Int(1));
+        r.add(11, Obj::Int(1));
+        r.add(12, Obj::dict(vec![("V", Obj::Int(1))]));
+        r.in_objstm.insert(12);
+        let mut r2 = Revision::new(XrefForm::Table);
+        r2.free.push((11, 1));
+        r2.add(12, Obj::dict(vec![("V", Obj::Int(2))])); // plain supersedes compressed
+        let mut r3 = Revision::new(XrefForm::Stream);
+        r3.objects.push((11, 1, Obj::Int(3))); // re-add with the bumped generation
+        r3.add(10, Obj::dict(vec![("V", Obj::Int(3))]));
+        r3.in_objstm.insert(10); // compressed supersedes plain
+        let mut fb = FileBuilder::new(1);
+        fb.revisions = vec![r, r2, r3];
+        let b = fb.build();
+        let issues = validate(&b.bytes);
+        assert!(issues.is_empty(), "{issues:?}");
+        // the orphan is in the file, before the referenced copy
+        let first = crate::file::find_first(&b.bytes, b"10 0 obj\n100", 0).expect("orphan present");
+        assert!(first < b.offsets[0][&10]);
+        let f1 = PdfFile::parse(&b.bytes[..b.lengths[0]]).unwrap();
+        assert_eq!(f1.get(10), Obj::Int(1));
+        assert_eq!(f1.get(12).dict_get("V"), Some(&Obj::Int(1)));
+        let f2 = PdfFile::parse(&b.bytes[..b.lengths[1]]).unwrap();
+        assert_eq!(f2.get(11), Obj::Null);
+        assert_eq!(f2.get(12).dict_get("V"), Some(&Obj::Int(2)));
+        let f3 = PdfFile::parse(&b.bytes).unwrap();
+        assert_eq!(f3.get_gen(11, 1), Obj::Int(3));
+        assert_eq!(f3.get_gen(11, 0), Obj::Null);
+        assert_eq!(f3.get(10).dict_get("V"), Some(&Obj::Int(3)));
+        assert_eq!(f3.get(12).dict_get("V"), Some(&Obj::Int(2)));
+    }
 }
